@@ -1175,6 +1175,12 @@ def register_last(lib):
     I = lib.I
     reg = lib.reg
 
+    @reg(r'^<(std::ops::|core::ops::|std::iter::|core::iter::|std::slice::|core::slice::)?(Range|RangeInclusive|StepBy|Rev|Chain|Enumerate|Skip|Take|Zip|Copied|Map|Iter|ChunksExact|Chunks|Windows)<.*> as Clone>::clone$',
+         'Clone::clone of an iterator (independent copy of its position)')
+    def _clone_iter(fr, name, args, ops):
+        v = lib.deref(args[0])
+        return I.copy_val(v) if type(v) is L else v
+
     @reg(r'^<(u8|u16|u32|u64|usize|bool|char|\(.*\)|\[.*\]|&.*) as Clone>::clone$', 'Clone::clone of a std value (copy)')
     def _clone_any(fr, name, args, ops):
         v = lib.deref(args[0])
